@@ -36,6 +36,11 @@
     * `invStarts_is_le`, `boundary_second_opens_chunk` + `decide` witnesses — the batch-to-chunk-starts step of
       `invalidate` as a model variant (`<=` as in /repo vs. the mutation `<`): a second that is the first second of a
       chunk opens that chunk.
+    * `publish_overwrites_all_slots` + `StoreV` witnesses — a successful load replaces EVERY slot of the chunk, also
+      where the storage now holds no rows (rows appear and disappear between storage versions in model and harness);
+    * `no_parked_waiter_without_limit` + `SetLimV` witness — the D2b fragment as a transition system (requests parked on
+      the hard limit, loads parked on the soft limit, setLimits incl. "unlimited", eviction, broadcasts): nobody stays
+      parked at a limit that no longer binds.
   Still not proved: the full "exactly the chunks containing the seconds" statement for `invalidate` (needs sortedness/alignment of bucket chunk
   lists as a trace invariant); both remain checked by the correspondence and the oracle.
   On a tree without fixes/C23-cache2-trim-wakeups-and-double-remove.diff the three decision-site theorems do not
@@ -1012,7 +1017,7 @@ def ops0 : List Op :=
     .get 2 1 0 false 100 102 200000000003, .fin 2 true 2 200000000004, .get 3 1 0 false 100 102 200000000005 ]
 
 example : Mono 0 ops0 := by simp [Mono, ops0, Op.now]
-example : (run (init cfg0) ops0).info.size = 396 := by decide
+example : (run (init cfg0) ops0).info.size = 196 := by decide
 example : ((run (init cfg0) ops0).loaders.map (fun l => (l.id, l.finished, l.data.map (fun x => x.map (·.ver))))) =
     [(1, true, [some 1, some 1]), (2, true, [some 2, some 2]), (3, true, [some 2, some 2])] := by decide
 
@@ -1023,7 +1028,7 @@ example : SH.TsCache.Place.FreshIds (init cfg0) ops0 := by decide
 example : ((run (init cfg0) ops0).loaders.map (fun l => (l.id, l.timeStart / nsec, l.data.map (fun x => x.map (·.t))))) =
     [(1, 100, [some 100, some 101]), (2, 100, [some 100, some 101]), (3, 100, [some 100, some 101])] := by decide
 
-/-- emptied: after a reset every chunk is detached (hypothesis of `accounting_zero_when_emptied`) while the size was 396 before -/
+/-- emptied: after a reset every chunk is detached (hypothesis of `accounting_zero_when_emptied`) while the size was 196 before -/
 example : ((run (init cfg0) (ops0 ++ [.reset 200000000006])).chunks.all (·.detached)) = true ∧
     (run (init cfg0) (ops0 ++ [.reset 200000000006])).info.size = 0 := by decide
 
@@ -1367,6 +1372,251 @@ def opsB : List Op :=
   [ .get 1 1 0 false 100 104 200000000000, .fin 1 true 1 200000000001, .inv [101, 102] 200000000002 ]
 example : ((run (init cfg0) opsB).chunks.map (fun c => (c.start / nsec, c.invAt))) =
     [(100, 200000000002), (102, 200000000002)] := by decide
+
+
+/-! ## Publishing a load overwrites every slot of the chunk, empty ones included
+
+  The storage may hold no rows for a slot at some version (`rowsOf … = 0`): in Go that slot of the loader's buffer is
+  an empty slice.  `loadChunks` stores `chunk.data[i] = append(chunk.data[i][:0], chunkData[i]...)` for EVERY `i`, so a
+  slot that had rows at the previous load and has none now becomes empty.  `StoreV.skipEmpty` is the mutation "skip
+  slots the load returned empty" (seeded change C23-r4-1): the chunk keeps the rows of the earlier load. -/
+
+inductive StoreV | all | skipEmpty
+deriving DecidableEq, Repr
+
+/-- the slot holds no rows (never written, or written by a load that got zero rows for it) -/
+def emptySlot (cfg : Cfg) : Slot → Bool
+  | none => true
+  | some c => rowsOf cfg c.t c.ver == 0
+
+/-- the per-slot store loop of `loadChunks` (`old` = the chunk's row buffers, `new` = the loader's buffer) -/
+def storeSlots (v : StoreV) (cfg : Cfg) : List Slot → List Slot → List Slot
+  | _, [] => []
+  | old, n :: ns =>
+    (match v with
+      | .all => n
+      | .skipEmpty => if emptySlot cfg n then old.head?.getD none else n) :: storeSlots v cfg old.tail ns
+
+theorem storeSlots_all (cfg : Cfg) (old new : List Slot) : storeSlots .all cfg old new = new := by
+  induction new generalizing old with
+  | nil => rfl
+  | cons n ns ih => simp only [storeSlots, ih]
+
+/-- **publish_overwrites_all_slots**: after a successful load the cached data of an attached chunk is exactly what the
+    load returned for every slot — whatever the chunk held before, and also where the load returned no rows -/
+theorem publish_overwrites_all_slots (cfg : Cfg) (cd : List Slot) (bytes : Int) (c : Chunk) (h : c.detached = false) :
+    (publish true cd bytes c).data = some (storeSlots .all cfg (c.data.getD []) cd) ∧
+    (publish true cd bytes c).data = some cd := by
+  rw [storeSlots_all]
+  simp [publish, h]
+
+/-- slot time 100 (cfg0): two rows at storage version 1, none at version 2.  The code stores the empty answer of the
+    reload; the mutation keeps the rows of version 1, which a later cache hit would return as fresh -/
+def cellV (ver load : Nat) : Slot := some { t := 100, key := 1, ver := ver, load := load, fin := load }
+example : rowsOf cfg0 100 1 = 2 ∧ rowsOf cfg0 100 2 = 0 := by decide
+example : storeSlots .all cfg0 [cellV 1 1] [cellV 2 2] = [cellV 2 2] := by decide
+example : storeSlots .skipEmpty cfg0 [cellV 1 1] [cellV 2 2] = [cellV 1 1] := by decide
+
+/-! ## Waiters parked at a memory limit and `setLimits` (the D2b fragment)
+
+  State: cache size, limits, whether the trim goroutine sleeps, loads parked in `tryNotExceedMemorySoftLimitInflight`
+  and requests parked in `tryNotExceedMemoryHardLimit`.  A broadcast of `allocCond` makes every parked waiter
+  re-evaluate its loop condition.  `SetLimV.both` is `setLimits` as in /repo (signal trim if over the soft limit AND
+  broadcast if there is no hard limit or the size is below it); `SetLimV.elseBroadcast` is the mutation that
+  broadcasts only in the `else` of the trim branch (seeded change C23-r4-2). -/
+
+structure TL where
+  size : Int
+  maxSize : Int
+  soft : Int
+  asleep : Bool
+  parkedSoft : Nat
+  parkedHard : Nat
+deriving DecidableEq, Repr
+
+inductive SetLimV | both | elseBroadcast
+deriving DecidableEq, Repr
+
+inductive LEv
+  | getStart                 -- a request reaches tryNotExceedMemoryHardLimit
+  | loadStart                -- a load calls updateInflightApprox(id, 0)
+  | setLimits (m so : Int)
+  | evict (to : Int)         -- busy trim goroutine evicts down to `to`, then updateRuntimeInfoUnlocked
+  | decide                   -- busy trim goroutine decides whether to sleep
+deriving DecidableEq, Repr
+
+/-- loop condition of tryNotExceedMemorySoftLimitInflight (no inflight bytes in this fragment) -/
+def softBinds (t : TL) : Bool := t.maxSize != 0 && decide (t.soft < t.size)
+/-- loop condition of tryNotExceedMemoryHardLimit -/
+def hardBinds (t : TL) : Bool := t.maxSize != 0 && decide (0 < t.size) && decide (t.maxSize < t.size)
+
+def tlBroadcast (t : TL) : TL :=
+  { t with parkedSoft := if softBinds t then t.parkedSoft else 0, parkedHard := if hardBinds t then t.parkedHard else 0 }
+
+def tlSignal (t : TL) : TL := { t with asleep := false }
+
+def tlSetLimits (v : SetLimV) (t : TL) (m so : Int) : TL :=
+  let t1 := { t with maxSize := normMax m, soft := normSoft m so }
+  if t.maxSize == t1.maxSize && t.soft == t1.soft then t else
+  match v with
+  | .both =>
+    let t2 := if t1.soft < t1.size then tlSignal t1 else t1
+    if t2.maxSize == 0 || decide (t2.size ≤ t2.maxSize) then tlBroadcast t2 else t2
+  | .elseBroadcast =>
+    if t1.soft < t1.size then tlSignal t1
+    else if t1.maxSize == 0 || decide (t1.size ≤ t1.maxSize) then tlBroadcast t1 else t1
+
+def tlStep (v : SetLimV) (t : TL) : LEv → TL
+  | .getStart => if hardBinds t then { t with parkedHard := t.parkedHard + 1 } else t
+  | .loadStart =>
+    if decide (0 < t.soft) && decide (t.soft < t.size) then
+      let t1 := tlSignal t
+      if softBinds t1 then { t1 with parkedSoft := t1.parkedSoft + 1 } else t1
+    else t
+  | .setLimits m so => tlSetLimits v t m so
+  | .evict to =>
+    if !t.asleep && decide (t.soft < t.size) && decide (to ≤ t.soft) && decide (0 ≤ to) then
+      let t1 := { t with size := to }
+      if t1.maxSize != 0 then
+        let t2 := if t1.soft < t1.size then tlSignal t1 else t1
+        if decide (t2.size ≤ t2.maxSize) || decide (t2.size ≤ 0) then tlBroadcast t2 else t2
+      else t1
+    else t
+  | .decide => if t.asleep then t else { t with asleep := trimSleeps .softLimitOrEmpty t.maxSize t.soft t.size t.size }
+
+def tlRun (v : SetLimV) (t : TL) (evs : List LEv) : TL := evs.foldl (tlStep v) t
+
+/-- limits as `setLimits` leaves them, and: whoever is parked, its limit still binds -/
+def TLInv (t : TL) : Prop :=
+  (t.maxSize = 0 → t.soft = 0) ∧ (t.maxSize ≠ 0 → 0 < t.maxSize ∧ 0 ≤ t.soft ∧ t.soft ≤ t.maxSize) ∧
+  (0 < t.parkedSoft → softBinds t = true) ∧ (0 < t.parkedHard → hardBinds t = true)
+
+theorem tlBroadcast_inv (t : TL) (h1 : t.maxSize = 0 → t.soft = 0)
+    (h2 : t.maxSize ≠ 0 → 0 < t.maxSize ∧ 0 ≤ t.soft ∧ t.soft ≤ t.maxSize) : TLInv (tlBroadcast t) := by
+  refine ⟨h1, h2, ?_, ?_⟩
+  · intro hp
+    cases hb : softBinds t with
+    | true => simpa [tlBroadcast, softBinds] using hb
+    | false => simp [tlBroadcast, hb] at hp
+  · intro hp
+    cases hb : hardBinds t with
+    | true => simpa [tlBroadcast, hardBinds] using hb
+    | false => simp [tlBroadcast, hb] at hp
+
+
+theorem norm_limits (m so : Int) :
+    (normMax m = 0 → normSoft m so = 0) ∧ (normMax m ≠ 0 → 0 < normMax m ∧ 0 ≤ normSoft m so ∧ normSoft m so ≤ normMax m) := by
+  unfold normMax normSoft
+  by_cases hm : m ≤ 0
+  · simp [hm]
+  · simp only [hm, if_false]
+    refine ⟨fun h => by omega, fun _ => ?_⟩
+    split
+    · omega
+    · rename_i h; simp only [Bool.or_eq_true, decide_eq_true_eq, not_or, Int.not_le] at h; omega
+
+theorem tlSetLimits_inv (t : TL) (m so : Int) (h : TLInv t) : TLInv (tlSetLimits .both t m so) := by
+  obtain ⟨n1, n2⟩ := norm_limits m so
+  unfold tlSetLimits
+  simp only []
+  split
+  · exact h
+  · have keep : ∀ t2 : TL, t2.maxSize = normMax m → t2.soft = normSoft m so → t2.size = t.size →
+        t2.parkedSoft = t.parkedSoft → t2.parkedHard = t.parkedHard →
+        TLInv (if (t2.maxSize == 0 || decide (t2.size ≤ t2.maxSize)) = true then tlBroadcast t2 else t2) := by
+      intro t2 e1 e2 e3 e4 e5
+      have l1 : t2.maxSize = 0 → t2.soft = 0 := by rw [e1, e2]; exact n1
+      have l2 : t2.maxSize ≠ 0 → 0 < t2.maxSize ∧ 0 ≤ t2.soft ∧ t2.soft ≤ t2.maxSize := by rw [e1, e2]; exact n2
+      split
+      · exact tlBroadcast_inv t2 l1 l2
+      · rename_i hc
+        simp only [Bool.or_eq_true, beq_iff_eq, decide_eq_true_eq, not_or, Int.not_le] at hc
+        obtain ⟨q1, q2, q3⟩ := l2 hc.1
+        refine ⟨l1, l2, fun _ => ?_, fun _ => ?_⟩
+        · simp only [softBinds, Bool.and_eq_true, bne_iff_ne, ne_eq, decide_eq_true_eq]; exact ⟨hc.1, by omega⟩
+        · simp only [hardBinds, Bool.and_eq_true, bne_iff_ne, ne_eq, decide_eq_true_eq]; exact ⟨⟨hc.1, by omega⟩, hc.2⟩
+    split
+    · exact keep _ rfl rfl rfl rfl rfl
+    · exact keep _ rfl rfl rfl rfl rfl
+
+theorem tlStep_inv (t : TL) (ev : LEv) (h : TLInv t) : TLInv (tlStep .both t ev) := by
+  obtain ⟨h1, h2, h3, h4⟩ := h
+  cases ev with
+  | getStart =>
+    simp only [tlStep]
+    split
+    · rename_i hb
+      exact ⟨h1, h2, h3, fun _ => hb⟩
+    · exact ⟨h1, h2, h3, h4⟩
+  | loadStart =>
+    simp only [tlStep]
+    split
+    · split
+      · rename_i hb
+        exact ⟨h1, h2, fun _ => hb, h4⟩
+      · exact ⟨h1, h2, h3, h4⟩
+    · exact ⟨h1, h2, h3, h4⟩
+  | setLimits m so => exact tlSetLimits_inv t m so ⟨h1, h2, h3, h4⟩
+  | evict to =>
+    simp only [tlStep]
+    split
+    · rename_i hc
+      simp only [Bool.and_eq_true, Bool.not_eq_true', decide_eq_true_eq] at hc
+      split
+      · rename_i hm
+        have hm' : t.maxSize ≠ 0 := by simpa using hm
+        obtain ⟨q1, q2, q3⟩ := h2 hm'
+        have hbc : ∀ t2 : TL, t2.maxSize = t.maxSize → t2.soft = t.soft → t2.size = to →
+            TLInv (if (decide (t2.size ≤ t2.maxSize) || decide (t2.size ≤ 0)) = true then tlBroadcast t2 else t2) := by
+          intro t2 e1 e2 e3
+          have : (decide (t2.size ≤ t2.maxSize) || decide (t2.size ≤ 0)) = true := by
+            simp only [Bool.or_eq_true, decide_eq_true_eq]; left; rw [e1, e3]; omega
+          simp only [this, if_true]
+          exact tlBroadcast_inv t2 (by rw [e1, e2]; exact h1) (by rw [e1, e2]; exact h2)
+        split
+        · exact hbc _ rfl rfl rfl
+        · exact hbc _ rfl rfl rfl
+      · rename_i hm
+        have hm' : t.maxSize = 0 := by simpa using hm
+        refine ⟨h1, h2, fun hp => ?_, fun hp => ?_⟩
+        · have := h3 hp; simp [softBinds, hm'] at this
+        · have := h4 hp; simp [hardBinds, hm'] at this
+    · exact ⟨h1, h2, h3, h4⟩
+  | decide =>
+    simp only [tlStep]
+    split
+    · exact ⟨h1, h2, h3, h4⟩
+    · exact ⟨h1, h2, h3, h4⟩
+
+/-- **no_parked_waiter_without_limit** (the code as it is): after any sequence of requests, loads, limit changes,
+    evictions and sleep decisions nobody is parked at a limit that does not bind any more — in particular nobody is
+    parked once the limits are switched off -/
+theorem no_parked_waiter_without_limit (t : TL) (evs : List LEv) (h : TLInv t) :
+    (0 < (tlRun .both t evs).parkedSoft → softBinds (tlRun .both t evs) = true) ∧
+    (0 < (tlRun .both t evs).parkedHard → hardBinds (tlRun .both t evs) = true) ∧
+    ((tlRun .both t evs).maxSize = 0 → (tlRun .both t evs).parkedSoft = 0 ∧ (tlRun .both t evs).parkedHard = 0) := by
+  have hrun : TLInv (tlRun .both t evs) := by
+    unfold tlRun
+    induction evs generalizing t with
+    | nil => exact h
+    | cons ev evs ih => exact ih _ (tlStep_inv t ev h)
+  obtain ⟨_, _, h3, h4⟩ := hrun
+  refine ⟨h3, h4, fun hm => ⟨?_, ?_⟩⟩
+  · cases hp : (tlRun .both t evs).parkedSoft with
+    | zero => rfl
+    | succ k => have := h3 (by omega); simp [softBinds, hm] at this
+  · cases hp : (tlRun .both t evs).parkedHard with
+    | zero => rfl
+    | succ k => have := h4 (by omega); simp [hardBinds, hm] at this
+
+/-- the seeded interleaving: hard limit 5 with 9 bytes cached, a request parks on it, the limits are switched off before
+    the trim goroutine has released anything, then trimming empties the cache.  With the code the waiter is released by
+    `setLimits`; under the mutation nobody ever wakes it -/
+def tl0 : TL := { size := 9, maxSize := 0, soft := 0, asleep := false, parkedSoft := 0, parkedHard := 0 }
+def tlWitness : List LEv := [.setLimits 5 0, .getStart, .setLimits 0 0, .evict 0, .decide]
+example : TLInv tl0 := by simp [TLInv, tl0]
+example : (tlRun .both tl0 tlWitness).parkedHard = 0 := by decide
+example : (tlRun .elseBroadcast tl0 tlWitness).parkedHard = 1 ∧ (tlRun .elseBroadcast tl0 tlWitness).maxSize = 0 := by decide
 
 
 end SH.Props.C23
